@@ -152,4 +152,114 @@ example : decodeInterpSegment (writeInterpSegment [96, 123, 10, 1, 48] ++ 96 :: 
     some ([96, 123, 10, 1, 48], [96]) :=
   interp_segment_roundtrip _ 96 [] (Or.inl rfl)
 
+/-! ## numbers -/
+
+/-- What the theorems assume about Rust's `f64` formatting and parsing (trusted base; the
+executable instance `floatOps` is compared with the real functions on every run):
+`{}` / `{:e}` print a finite double so that `parse` reads exactly it back (sign of zero
+included), and `==` identifies only equal doubles, apart from the two zeros. -/
+structure NumLaws {F : Type} (ops : NumOps F) : Prop where
+  parse_fmt : ∀ x, ops.isNaN x = false → ops.isInf x = false → ops.parse (ops.fmt x) = some x
+  parse_fmtExp : ∀ u x, ops.isNaN x = false → ops.isInf x = false →
+    ops.parse (ops.fmtExp u x) = some x
+  eq_sound : ∀ y x, ops.eq y x = true → ops.isZero x = false → y = x
+
+/-- `write_number` on a finite decimal, with or without a recorded exponent (any `i64`, any
+case): the text parses back (`str::parse::<f64>`, the same correctly rounded reading Luau's
+`strtod` performs) to the same double; for ±0 with a recorded exponent in the accepted
+`mantissa e exp` form the guarantee is IEEE equality (the sign of zero in that one form rests
+on `float / 10^exp` keeping the sign, which the run-time check covers bit-exactly). -/
+theorem number_roundtrip {F : Type} (ops : NumOps F) (laws : NumLaws ops) (x : F)
+    (exponent : Option (Int × Bool)) (hn : ops.isNaN x = false) (hi : ops.isInf x = false) :
+    ∃ y, ops.parse (writeNumber ops (.decimal x exponent)) = some y ∧
+      (y = x ∨ (ops.isZero x = true ∧ ops.eq y x = true)) := by
+  have aux : ∀ formatted fallback : List UInt8, ops.parse fallback = some x →
+      ∃ y, ops.parse (if (ops.parse formatted).any (ops.eq · x) = true then formatted else fallback)
+        = some y ∧ (y = x ∨ (ops.isZero x = true ∧ ops.eq y x = true)) := by
+    intro formatted fallback hfb
+    split
+    · rename_i hcheck
+      -- the literal `mantissa e exp` was accepted because it re-parses to an equal double
+      rw [Option.any_eq_true] at hcheck
+      obtain ⟨y, hy, hyx⟩ := hcheck
+      refine ⟨y, hy, ?_⟩
+      cases hz : ops.isZero x with
+      | false => exact Or.inl (laws.eq_sound y x hyx hz)
+      | true => exact Or.inr ⟨rfl, hyx⟩
+    · exact ⟨x, hfb, Or.inl rfl⟩
+  simp only [writeNumber, hn, hi, Bool.false_eq_true, if_false]
+  split
+  · exact aux _ _ (laws.parse_fmtExp _ x hn hi)
+  · split <;> exact ⟨x, laws.parse_fmt x hn hi, Or.inl rfl⟩
+
+/-- Without a recorded exponent (or one outside `i32`) the round trip is exact, zeros included. -/
+theorem number_roundtrip_plain {F : Type} (ops : NumOps F) (laws : NumLaws ops) (x : F)
+    (hn : ops.isNaN x = false) (hi : ops.isInf x = false) :
+    ops.parse (writeNumber ops (.decimal x none)) = some x := by
+  simp only [writeNumber, hn, hi, Bool.false_eq_true, if_false, Option.map_none, Option.bind_none]
+  split <;> exact laws.parse_fmt x hn hi
+
+/-- NaN and the infinities are written as the divisions `(0/0)`, `(1/0)`, `(-1/0)` … -/
+theorem number_special_text {F : Type} (ops : NumOps F) (x : F) (exponent : Option (Int × Bool)) :
+    (ops.isNaN x = true → writeNumber ops (.decimal x exponent) = [40, 48, 47, 48, 41]) ∧
+    (ops.isNaN x = false → ops.isInf x = true → ops.signNeg x = false →
+      writeNumber ops (.decimal x exponent) = [40, 49, 47, 48, 41]) ∧
+    (ops.isNaN x = false → ops.isInf x = true → ops.signNeg x = true →
+      writeNumber ops (.decimal x exponent) = [40, 45, 49, 47, 48, 41]) := by
+  refine ⟨?_, ?_, ?_⟩
+  · intro h; simp only [writeNumber, h, if_true]
+  · intro h1 h2 h3; simp only [writeNumber, h1, h2, h3, if_true, Bool.false_eq_true, if_false]; decide
+  · intro h1 h2 h3; simp only [writeNumber, h1, h2, h3, if_true, Bool.false_eq_true, if_false]; decide
+
+/-- … which, read as Luau source by the reference evaluator (exact IEEE division), are NaN, +∞, −∞;
+and `-0` is negative zero. -/
+theorem number_special_value :
+    evalWritten [40, 48, 47, 48, 41] = some 0x7ff8000000000000 ∧
+    evalWritten [40, 49, 47, 48, 41] = some 0x7ff0000000000000 ∧
+    evalWritten [40, 45, 49, 47, 48, 41] = some 0xfff0000000000000 ∧
+    evalWritten [45, 48] = some 0x8000000000000000 := by
+  decide +kernel
+
+/-- Hexadecimal literals as written (`0x…`/`0X…`, no exponent) are single Luau number tokens
+denoting exactly the node's integer. -/
+theorem hex_literal_roundtrip {F : Type} (ops : NumOps F) (n : Nat) (hn : n ≤ 18446744073709551615)
+    (ux : Bool) : luauNumber? (writeNumber ops (.hex n none ux)) = some (.int n) := by
+  simp only [writeNumber, List.append_nil]
+  exact luauNumber_hex n hn ux
+
+/-- Binary literals as written (`0b…`/`0B…`) are single Luau number tokens denoting exactly
+the node's integer. -/
+theorem binary_literal_roundtrip {F : Type} (ops : NumOps F) (n : Nat)
+    (hn : n ≤ 18446744073709551615) (ub : Bool) :
+    luauNumber? (writeNumber ops (.binary n ub)) = some (.int n) := by
+  simp only [writeNumber]
+  exact luauNumber_bin n hn ub
+
+example : luauNumber? (writeNumber floatOps (.hex 0xdeadbeef none true)) = some (.int 0xdeadbeef) :=
+  hex_literal_roundtrip _ _ (by decide) _
+
+/-- `number_parse_spec`, the digit part: on a run of digits valid in the radix the model
+parser's `u64::from_str_radix` (optional `+`, digit folding, overflow check) is the reference
+lexer's `strtoull`: same acceptance, same value, same overflow rejection — for hexadecimal and
+binary. (The decimal value is in both the correctly rounded reading of the text without
+underscores, `ops.parse (filterUnderscore text)`; that the `0x`/`0b` prefix detection, the
+underscore positions and the decimal grammar agree between model and reference for every token
+is covered by the run-time comparison only — see meta/C13.json.) -/
+theorem number_parse_spec_digits (ds : List UInt8) :
+    (ds.all (fun c => (hexVal? c).any (· < 16)) = true →
+      parseUnsigned 16 18446744073709551615 ds = strtoullAll 16 ds) ∧
+    (ds.all (fun c => (hexVal? c).any (· < 2)) = true →
+      parseUnsigned 2 18446744073709551615 ds = strtoullAll 2 ds) :=
+  ⟨parseUnsigned_eq_strtoull 16 toDigit_16 ds, parseUnsigned_eq_strtoull 2 toDigit_2 ds⟩
+
+example : ([49, 98, 70, 50, 65] : List UInt8).all (fun c => (hexVal? c).any (· < 16)) = true := by decide
+
+-- non-vacuity of `NumLaws`: a (degenerate) structure satisfying the laws exists, with finite values
+example : ∃ (ops : NumOps Nat), NumLaws ops ∧ ops.isNaN 3 = false ∧ ops.isInf 3 = false :=
+  ⟨{ isNaN := fun _ => false, isInf := fun _ => false, isZero := fun n => n == 0,
+     signNeg := fun _ => false, fractIsZero := fun _ => true, divPow10 := fun x _ => x,
+     fmt := fun n => List.replicate n 49, fmtExp := fun _ n => List.replicate n 49,
+     parse := fun s => some s.length, eq := fun a b => a == b },
+   ⟨by intro x _ _; simp, by intro _ x _ _; simp, by intro y x h _; simpa using h⟩, rfl, rfl⟩
+
 end DarkluaModel.C13
